@@ -112,6 +112,15 @@ int main(int argc, char** argv) {
       }
     }
   }
+    // a field divisor combined with the divisor of the base type: beyond MAX_DIVISOR the definition has to be rejected
+  for (const char* id : {"D2C", "D2B", "FLT"}) {
+    const NumberDataType* base = (const NumberDataType*)DataTypeList::getInstance()->get(id);
+    for (int div : {500000000, 1000000000, 268435456, 4294968}) {
+      const NumberDataType* d = nullptr; long long product = (long long)div * base->getDivisor();
+      result_t r = base->derive(div, 0, &d);
+      if (product > 1000000000LL && r == RESULT_OK) fail("base type %s (divisor %d) with field divisor %d: the product %lld is beyond MAX_DIVISOR but the definition is accepted with divisor %d", id, base->getDivisor(), div, product, d ? d->getDivisor() : 0);
+    }
+  }
   if (!g_failures) printf("NOT-REPRODUCED\n");
   fflush(stdout);
   return g_failures ? 1 : 0;
